@@ -341,6 +341,7 @@ def bounded(pr):
             yield n + ' no TER', [l for l in base if not l.startswith('TER')]
             yield n + ' no TER, OXT not last', _oxt_first(base)
             yield n + ' no OXT/TER-kept', [l for l in base if l[12:16] != ' OXT']
+            yield n + ' no OXT, bare TER records', [('TER\n' if l.startswith('TER') else l) for l in base if l[12:16] != ' OXT']
             yield n + ' chain B renumbered to start at the last number of A', _renumber(base)
             yield n + ' waters as ATOM', [('ATOM  ' + l[6:]) if l[17:20] == 'HOH' else l for l in base]
     for name, lines in layouts():
